@@ -25,7 +25,7 @@ def fam_d15(case, failure):
 class C07(G.AutoImpBase):
     id = "C07"
     driver = "C07"
-    lean_modules = ["Pfb.C07.Props"]
+    lean_modules = ["Pfb.C07.Props", "Pfb.C07.Runs"]
     theorems = [
         "Pfb.C07.C07_success_heads_bound",
         "Pfb.C07.C07_success_resolves",
@@ -43,6 +43,15 @@ class C07(G.AutoImpBase):
         "Pfb.AutoImp.walk_stable",
         "Pfb.AutoImp.foldSyms_true",
         "Pfb.AutoImp.autoImportSymbol_true_headBound",
+        # composition with C05's soundness theorems: a reported success means the reference run raises no NameError
+        "Pfb.C07.C07_runs_fragB",
+        "Pfb.C07.C07_runs_fragG",
+        "Pfb.C07.findMissing_mono_fragB",
+        "Pfb.C07.findMissing_mono_fragG",
+        "Pfb.C07.reported_head_unbound",
+        "Pfb.C07.reported_head_unbound_G",
+        "Pfb.C07.RunsEx.success",
+        "Pfb.C07.RunsEx.successG",
     ]
     rule = ("same history stream as C06 (harness/gen_c06.py) with its own seed; the oracle executes the code in a forked child "
             "after every successful call; a case is non-trivial when at least one import statement was really executed")
